@@ -9,6 +9,7 @@ exactness for commuting pieces as a statement about matrix exponentials, and the
 -/
 import OFV.Model.C15
 import OFV.Proofs.C15
+import OFV.Proofs.C15Exp
 
 namespace OFV.C15
 open OFV.Model.C15 OFV.Model.C14
@@ -193,6 +194,34 @@ theorem lsn_sym_step_is_product_formula (n : Nat) (Tre Tim V : Nat → Nat → R
       apply List.sum_eq_zero; intro x hx; obtain ⟨e, _, rfl⟩ := List.mem_map.mp hx; simp [coeffOfKind]
     rw [z1 false, z2, zero_add, add_zero]
     apply congrArg; apply List.map_congr_left; intro i _; simp [coeffOfKind]
+/-- Exactness for commuting pieces (Mathlib matrix exponential): if the generators `G` of one Trotter
+step commute pairwise, the product over all leaf steps of the whole simulation — every order, every
+step count, every value of the Suzuki ratios, any involutive or other qubit bookkeeping — of the step
+unitaries `∏_g exp(z τ g)` is exactly `exp(z t ΣG)`; with `z = -i` this is `exp(-iHt)`.  (All factors
+commute, so the order in which the circuit multiplies them is immaterial.) -/
+theorem exact_when_commuting {d : Nat} (perm : List Nat → List Nat) (r : Nat → Rat) (order nSteps : Nat)
+    (hn : nSteps ≠ 0) (q : List Nat) (time : Rat) (G : List (Matrix (Fin d) (Fin d) ℂ))
+    (hc : G.Pairwise Commute) (z : ℂ) :
+    ((simulate perm r order nSteps q time).1.map fun l => stepU G (z * (l.time : ℂ))).prod
+      = NormedSpace.exp ((z * (time : ℂ)) • G.sum) := by
+  have gen : ∀ L : List Leaf, (L.map fun l : Leaf => z * (l.time : ℂ)).sum
+      = z * (((L.map (·.time)).sum : Rat) : ℂ) := by
+    intro L
+    induction L with
+    | nil => simp
+    | cons a l ih => simp only [List.map_cons, List.sum_cons, ih]; push_cast; ring
+  have hs : ((simulate perm r order nSteps q time).1.map fun l : Leaf => z * (l.time : ℂ)).sum
+      = z * (time : ℂ) := by
+    rw [gen, simulate_times_sum perm r order nSteps hn q time]
+  have h := prod_stepU G hc ((simulate perm r order nSteps q time).1.map fun l : Leaf => z * (l.time : ℂ))
+  rw [List.map_map, hs] at h
+  exact h
+
+/-- non-vacuity of `exact_when_commuting`: diagonal matrices commute -/
+example : ([Matrix.diagonal ![1, 2], Matrix.diagonal ![3, (-1 : ℂ)]] :
+    List (Matrix (Fin 2) (Fin 2) ℂ)).Pairwise Commute := by
+  simp [Commute, SemiconjBy, Matrix.diagonal_mul_diagonal, mul_comm]
+
 /-- non-vacuity / sanity: the order-2 step with ratio `r 2 = 1/3` has times `⅓,⅓,-⅓,⅓,⅓`; the
 reversal is an involution; three steps leave the register reversed -/
 example : (performStep reversal (fun _ => 1/3) 2 [0, 1, 2] 1).map (·.time) = [1/3, 1/3, -1/3, 1/3, 1/3] := by
